@@ -438,6 +438,7 @@ theorem inv_step {st : State} (h : Inv st) (op : Op) : Inv (step st op).1 := by
   | demonitorScope s a => exact inv_demonitorScope h s a
   | exit a => exact inv_exit h a
   | newRemote a => exact { h with }
+  | drain a => exact h
 
 theorem inv_run {st : State} (h : Inv st) (ops : List Op) : Inv (run st ops) := by
   induction ops generalizing st with
